@@ -218,7 +218,7 @@ reg(Spec("C13", "c13_dma.cpp", needs=("shim",),
               "channel with matching unit size and direction, bursts x4/x8 with step = unit size and whole bursts, start "
               "addresses anywhere in the 17-bit data space (bank boundary straddled), started through the host accessor or the "
               "DSP data path. Oracle: element sequence of dma.md applied in order to a model memory / model external memory; "
-              "compared: whole 512 KiB image, ordered external access log, ICU bit 15; a transfer that makes more than 8x the documented number of memory accesses is stopped through the access observer and reported as not completing. A quarter of the cases are preceded by a burst read that ended inside a burst, then Reset(). Non-trivial = >= 2 dimensions with more "
+              "compared: whole 512 KiB image, ordered external access log, ICU bit 15; a transfer that makes more than 8x the documented number of memory accesses is stopped through the access observer and reported as not completing. A quarter of the cases are preceded by a burst read that ended inside a burst, then Reset(). c_binding_ahbm (10% of the cases): AHBM channel configuration, the host's AHBM accessors and short word / double-word transfers between DSP and external memory through a C++ facade instance and through a C-binding context (external callbacks as C function pointers): identical ordered external access logs, returned values and DSP memory. Non-trivial = >= 2 dimensions with more "
               "than one element, or overlap; distinct by hash of the encoded history.",
          assumptions=["DSP-side addresses stay inside the 17-bit data space (beyond it is C18's subject); steps are added to the address as-is (unsigned)",
                       "external accesses are naturally aligned, unit size matched to the element size; bursts only with step = unit size and whole bursts",
